@@ -300,6 +300,19 @@ def generate(seed, tier):
         elif r.random() < 0.2:
             case['abandon']['inmemory'] = True      # the input is a str / bytes object, not a stream: the loader must go all the same
     case['parts'] = parts
+    rw = kernel.rng(seed, 'wrapper')
+    if api == 'load_all' and backend == 'py' and rw.random() < 0.3 and not (case.get('loader') or '').startswith('Custom:') \
+            and not (case.get('abandon') or {}).get('inmemory'):
+        # the convenience wrappers are generator functions of their own
+        if mode == 'release':
+            w = {'SafeLoader': 'safe_load_all', 'FullLoader': 'full_load_all', 'UnsafeLoader': 'unsafe_load_all'}.get(case['loader'])
+        elif mode == 'order' and case['malformed'] == 'constructor-python-tag':
+            w = rw.choice(['safe_load_all', 'full_load_all'])
+        else:
+            w = rw.choice(['safe_load_all', 'full_load_all', 'unsafe_load_all'])
+        if w:
+            case['wrapper'] = w
+            case['loader'] = {'s': 'SafeLoader', 'f': 'FullLoader', 'u': 'UnsafeLoader'}[w[0]]
     n = sum(len(p['text']) for p in parts) * (2 if form == 'utf16le' else 1)
     x = rs.random()
     if x < 0.3:
@@ -319,7 +332,7 @@ def generate(seed, tier):
 
 
 def describe(case):
-    d = {k: case.get(k) for k in ('mode', 'api', 'backend', 'form', 'loader', 'malformed', 'abandon', 'then')}
+    d = {k: case.get(k) for k in ('mode', 'api', 'wrapper', 'backend', 'form', 'loader', 'malformed', 'abandon', 'then')}
     d['sizes_head'] = (case.get('sizes') or [])[:10]
     d['parts'] = [[p['kind'], len(p['text']), p['text'][:40]] for p in case['parts'][:8]]
     d['total_chars'] = sum(len(p['text']) * p.get('repeat', 1) for p in case['parts'])
@@ -410,6 +423,12 @@ def execute(case):
     L = loader_for(yaml, case)
     data = encode(text, form)
     log = []
+
+    def call(src, loader_cls):
+        if case.get('wrapper'):
+            out['probes']['runs_through_convenience_wrappers'] = 1
+            return getattr(yaml, case['wrapper'])(src)
+        return getattr(yaml, api)(src, Loader=loader_cls)
     mode = case['mode']
     sig_extra = None
     logparts = []
@@ -451,7 +470,7 @@ def execute(case):
         k = 0
         worst = None
         try:
-            for it in getattr(yaml, api)(stream, Loader=L):
+            for it in call(stream, L):
                 deliver = False
                 if api in ('load_all', 'compose_all'):
                     deliver = True
@@ -514,7 +533,7 @@ def execute(case):
         n_tokens_before = 0
         shift = 1 if (backend == 'py' and form == 'utf16le') else 0
         try:
-            for it in getattr(yaml, api)(stream, Loader=L):
+            for it in call(stream, L):
                 if api == 'load_all':
                     got.append(observe.value(it))
                 elif api == 'compose_all':
@@ -574,7 +593,7 @@ def execute(case):
                     loaders.append(weakref.ref(self))
                     super().__init__(s)
             Probe.__name__ = L.__name__
-            gen = getattr(yaml, api)(stream, Loader=Probe)
+            gen = call(stream, Probe)
             del stream
             n = 0
             err = None
